@@ -47,6 +47,8 @@ type Env struct {
 
 	// set by the executor per scenario
 	NonTrivial bool
+	// Waive: the executor asks that a verdict which the harness itself may have provoked be dropped
+	Waive bool
 	// ExtraEvals: executions beyond the first that one scenario performed
 	// (enumerated injection points); NTPoints: distinct non-trivial points.
 	ExtraEvals uint64
